@@ -99,10 +99,15 @@ class SigImpl:
                 groups.append(cur)
                 cur = []
                 continue
+            if t.startswith("ovr:"):
+                # this (base) class defines the name as well; the more derived definition overrides it
+                _, n, k = t.split(":")
+                cur.append((int(n), k, None))
+                continue
             n, k, ts = t.split(":")
             cur.append((int(n), k, ts.split(",")))
         groups.append(cur)
-        self.decls = [d for g in groups for d in g]
+        self.decls = [d for g in groups for d in g if d[2] is not None]
         self.kind = {n: k for n, k, _ in self.decls}
         impl = self
 
@@ -112,6 +117,9 @@ class SigImpl:
             ns = {}
             for n, k, ts in groups[gi]:
                 d = ms.Observable() if k == "obs" else ms.ObservableList()
+                if ts is None:          # overridden further down the hierarchy
+                    ns[f"o{n}"] = d
+                    continue
                 assert set(ts) == set(d.signal_types), (ts, d.signal_types)
                 if not self.natural:
                     # pin the iteration order of the signal-type set (hash-seed dependent in CPython):
@@ -343,6 +351,16 @@ def gen_sig_header(R, natural=None):
             toks.append("|")
         toks.append(f"{nm}:{k}:{','.join(ts)}")
         decls.append((nm, k))
+    if cuts and R.random() < 0.3:
+        # a base class defines one of the names of a more derived class again (mostly with the other kind): the
+        # definition in effect is the most derived one
+        i = R.randrange(0, cuts[-1])                         # a declaration that is not in the last class
+        later = [c for c in cuts if c > i]
+        toks.append(f"ovr:{names[i]}:{R.choice(['obs', 'lst', 'lst' if kinds[i] == 'obs' else 'obs'])}")
+        if R.random() < 0.5 and len(later) > 1:
+            # ... in the class in between rather than in the last one
+            at = [j for j, t in enumerate(toks) if t == "|"][-1]
+            toks.insert(at, toks.pop())
     if natural:
         toks.append("natural")
     return "scenario sig " + " ".join(toks), decls
@@ -584,7 +602,7 @@ def _matches(sel, x):
 def oracle_sig(sc, obs):
     tr = sc.meta.get("trace") or []
     bad = []
-    toks = [t for t in sc.lines[0].split()[2:] if t not in ("|", "natural") and not t.startswith("prog:")]
+    toks = [t for t in sc.lines[0].split()[2:] if t not in ("|", "natural") and not t.startswith(("prog:", "ovr:"))]
     progs = {int(t.split(":")[1]): t.split(":")[2].split(",") for t in sc.lines[0].split()[2:] if t.startswith("prog:")}
     decls = [(int(t.split(":")[0]), t.split(":")[1]) for t in toks]
     kind = dict(decls)
@@ -706,6 +724,9 @@ def oracle_sig(sc, obs):
                 if after_vals[int(w[1])] != w[2]:
                     bad.append(f"store: after `{ev[1]}` the value is {after_vals[int(w[1])]}")
             for n, d in replica.items():
+                if after_vals[n] is None:
+                    bad.append(f"replica-diverged: after `{ev[1]}` list {n} cannot be read, the listener's copy {fmt_ints(d)}")
+                    continue
                 if after_vals[n] != fmt_ints(d):
                     bad.append(f"replica-diverged: after `{ev[1]}` list {n} is {after_vals[n]}, the listener's copy {fmt_ints(d)}")
                     replica[n] = parse_ints(after_vals[n][1:-1] or "-")
